@@ -87,7 +87,8 @@ impl<'a> RenumVisitor<'a> {
             Integer(col, n) => (col, *n as f64),
             _ => return,
         };
-        if n > LineNumber::max_value() as f64 {
+        // Omitted operands are parsed to sentinels (-1, or an empty column): not references.
+        if n < 0.0 || n > LineNumber::max_value() as f64 || col.start == col.end {
             return;
         }
         let n = n as u16;
